@@ -337,7 +337,21 @@ class SymExec:
             b = target.value
             d = dotted(b) if isinstance(b, (ast.Name, ast.Attribute)) else None
             if d is not None:
-                p.env.pop(d, None)      # element store: the container is no longer a known expression
+                cur = p.env.get(d)
+                idx_ = self.subst(target.slice, p.env) if isinstance(target.slice, ast.AST) else None
+                starred_list = isinstance(cur, (ast.List, ast.Tuple)) and any(isinstance(x, ast.Starred) for x in cur.elts)
+                if cur is not None and isinstance(idx_, ast.Constant) and isinstance(idx_.value, int) and idx_.value >= 0 \
+                   and isinstance(b, ast.Name) and (not isinstance(cur, (ast.List, ast.Tuple)) or starred_list):
+                    # L[i] = v on a sequence known only as an expression: "L with element i replaced by v"
+                    p.env[d] = ast.Call(func=ast.Name(id='_with', ctx=ast.Load()), args=[cur, idx_, value], keywords=[])
+                elif cur is not None and isinstance(cur, ast.List) and isinstance(idx_, ast.Constant) and \
+                        isinstance(idx_.value, int) and 0 <= idx_.value < len(cur.elts) and \
+                        not any(isinstance(x, ast.Starred) for x in cur.elts) and isinstance(b, ast.Name):
+                    elts = list(cur.elts)
+                    elts[idx_.value] = value
+                    p.env[d] = ast.List(elts=elts, ctx=ast.Load())
+                else:
+                    p.env.pop(d, None)      # element store: the container is no longer a known expression
                 p.stores.append((d + '[...]', value, st))
                 idx = norm(self.subst(target.slice, p.env)) if isinstance(target.slice, ast.AST) else '?'
                 p.events.append(('store', '%s[%s]' % (d, idx), value, st, p.loops))
@@ -470,6 +484,13 @@ class SymExec:
             for val, blk in ((True, st.body), (False, st.orelse)):
                 if isinstance(test, ast.Constant) and bool(test.value) != val:
                     continue        # the test is a known constant on this path
+                if isinstance(test, ast.Compare) and len(test.ops) == 1 and isinstance(test.left, ast.Constant) and \
+                   isinstance(test.comparators[0], ast.Constant) and isinstance(test.ops[0], (ast.Is, ast.IsNot, ast.Eq, ast.NotEq)):
+                    a_, b_ = test.left.value, test.comparators[0].value
+                    same = (a_ is b_) if isinstance(test.ops[0], (ast.Is, ast.IsNot)) else (a_ == b_)
+                    truth = same if isinstance(test.ops[0], (ast.Is, ast.Eq)) else not same
+                    if truth != val:
+                        continue
                 if val and ((isinstance(test, ast.Call) and isinstance(test.func, ast.Name) and test.func.id in
                              ('set', 'list', 'dict', 'tuple') and not test.args and not test.keywords) or
                             (isinstance(test, (ast.List, ast.Tuple, ast.Set)) and not test.elts) or
@@ -479,6 +500,10 @@ class SymExec:
                 ats = atomize(test, val)
                 if any(isinstance(b, bool) and (t, not b) in p2.conds for t, b in ats):
                     continue        # contradicts a test already passed (same substituted text)
+                if any((t == 'None is None' and b is False) or
+                       (t != 'None is None' and t.endswith(' is None') and b is True and
+                        (t[:-8].lstrip('-').replace('.', '', 1).isdigit() or t[0] in '\'"')) for t, b in ats):
+                    continue        # a constant compared with None
                 p2.conds = p2.conds + tuple(a for a in ats if a not in p2.conds)
                 out += self._block(blk, [p2])
             return out
@@ -562,6 +587,21 @@ class SymExec:
             return [p]
         if isinstance(st, ast.Break):
             p.end = 'break'
+            return [p]
+        if isinstance(st, ast.Assign) and isinstance(st.value, ast.Call) and isinstance(st.value.func, ast.Attribute) \
+           and st.value.func.attr == 'pop' and isinstance(st.value.func.value, ast.Name) and \
+           st.value.func.value.id in p.env and len(st.value.args) == 1 and not st.value.keywords and \
+           isinstance(st.value.args[0], ast.Constant) and st.value.args[0].value in (0, -1):
+            # x = L.pop(0): x is the first element, L goes on as L[1:]   (L.pop(-1): last element, L[:-1])
+            nm = st.value.func.value.id
+            cur = p.env[nm]
+            first = st.value.args[0].value == 0
+            elem = simplify(ast.Subscript(value=cur, slice=ast.Constant(value=0 if first else -1), ctx=ast.Load()))
+            rest = ast.Subscript(value=cur, slice=ast.Slice(lower=ast.Constant(value=1), upper=None, step=None) if first
+                                 else ast.Slice(lower=None, upper=ast.Constant(value=-1), step=None), ctx=ast.Load())
+            p.env[nm] = simplify(rest)
+            for t in st.targets:
+                self._assign(t, elem, p, st)
             return [p]
         if isinstance(st, ast.Assign):
             out = []
@@ -671,14 +711,146 @@ def _subst_inner(sx, n, env2):
     return new
 
 
+def _each_of(v):
+    """(element, iterable) when v is _each(E, IT) or the list [*_each(E, IT)] / tuple(...) of it"""
+    if isinstance(v, ast.Call) and isinstance(v.func, ast.Name) and v.func.id in ('tuple', 'list') and len(v.args) == 1:
+        v = v.args[0]
+    if isinstance(v, (ast.List, ast.Tuple)) and len(v.elts) == 1 and isinstance(v.elts[0], ast.Starred):
+        v = v.elts[0].value
+    if _is_each(v):
+        return v.args[0], v.args[1]
+    return None
+
+
+_SIMPLIFY_DEPTH = 0
+
+
+def _neg_const(n):
+    """-3 written as UnaryOp(USub, 3) -> Constant(-3)"""
+    if isinstance(n, ast.UnaryOp) and isinstance(n.op, ast.USub) and isinstance(n.operand, ast.Constant) and \
+       isinstance(n.operand.value, (int, float)) and not isinstance(n.operand.value, bool):
+        return ast.Constant(value=-n.operand.value)
+    return None
+
+
 def simplify(e):
     """(a, b)[1] -> b   (after substitution; arithmetic is left as written: `c = E` and `c = 0 + E`
     must stay distinguishable)"""
     def fn(n):
+        if isinstance(n, ast.Subscript) and isinstance(n.slice, ast.BinOp) and isinstance(n.slice.op, (ast.Add, ast.Sub)) \
+           and isinstance(n.slice.left, ast.Constant) and isinstance(n.slice.right, ast.Constant) and \
+           isinstance(n.slice.left.value, int) and isinstance(n.slice.right.value, int):
+            v_ = n.slice.left.value + n.slice.right.value if isinstance(n.slice.op, ast.Add) else \
+                n.slice.left.value - n.slice.right.value
+            return simplify(ast.Subscript(value=n.value, slice=ast.Constant(value=v_), ctx=ast.Load()))
+        if isinstance(n, ast.Subscript) and _neg_const(n.slice) is not None:
+            return simplify(ast.Subscript(value=n.value, slice=_neg_const(n.slice), ctx=ast.Load()))
+        if isinstance(n, ast.Subscript) and isinstance(n.value, ast.Call) and isinstance(n.value.func, ast.Name) and \
+           n.value.func.id == '_with' and len(n.value.args) == 3 and isinstance(n.slice, ast.Constant) and \
+           isinstance(n.value.args[1], ast.Constant) and isinstance(n.slice.value, int) and n.slice.value >= 0 and \
+           isinstance(n.value.args[1].value, int) and n.value.args[1].value >= 0:
+            # element j of "L with element i replaced by v"
+            base, i_, v_ = n.value.args
+            if n.slice.value == i_.value:
+                return simplify(v_)
+            return simplify(ast.Subscript(value=base, slice=n.slice, ctx=ast.Load()))
+        if isinstance(n, ast.Call) and isinstance(n.func, ast.Name) and n.func.id == 'len' and len(n.args) == 1 and \
+           isinstance(n.args[0], ast.Call) and isinstance(n.args[0].func, ast.Name) and n.args[0].func.id == '_with':
+            return simplify(ast.Call(func=n.func, args=[n.args[0].args[0]], keywords=[]))
         if isinstance(n, ast.Subscript) and isinstance(n.value, (ast.Tuple, ast.List)) and \
            isinstance(n.slice, ast.Constant) and isinstance(n.slice.value, int) and \
-           -len(n.value.elts) <= n.slice.value < len(n.value.elts):
+           -len(n.value.elts) <= n.slice.value < len(n.value.elts) and \
+           not any(isinstance(x, ast.Starred) for x in n.value.elts):
             return simplify(n.value.elts[n.slice.value])
+        if isinstance(n, ast.Compare) and len(n.ops) == 1 and isinstance(n.ops[0], (ast.Is, ast.IsNot)) and \
+           isinstance(n.comparators[0], ast.Constant) and n.comparators[0].value is None:
+            l_ = n.left
+            never_none = (isinstance(l_, ast.Subscript) and isinstance(l_.value, ast.Call) and
+                          isinstance(l_.value.func, ast.Attribute) and l_.value.func.attr == 'split') or \
+                         (isinstance(l_, ast.Call) and isinstance(l_.func, ast.Name) and
+                          l_.func.id in ('int', 'float', 'complex', 'str', 'len', 'bool', 'abs')) or \
+                         (isinstance(l_, ast.Constant) and l_.value is not None)
+            if never_none:
+                return ast.Constant(value=isinstance(n.ops[0], ast.IsNot))
+            if isinstance(l_, ast.Constant) and l_.value is None:
+                return ast.Constant(value=isinstance(n.ops[0], ast.Is))
+        if isinstance(n, ast.IfExp) and isinstance(n.test, ast.Constant):
+            return n.body if n.test.value else n.orelse
+        if isinstance(n, ast.BoolOp) and any(isinstance(v_, ast.Constant) and isinstance(v_.value, bool) for v_ in n.values):
+            is_and = isinstance(n.op, ast.And)
+            vals = []
+            for v_ in n.values:
+                if isinstance(v_, ast.Constant) and isinstance(v_.value, bool):
+                    if v_.value != is_and:
+                        return ast.Constant(value=v_.value)     # False in an `and`, True in an `or`
+                    continue
+                vals.append(v_)
+            if not vals:
+                return ast.Constant(value=is_and)
+            if len(vals) == 1:
+                return vals[0]
+            if len(vals) >= 2:
+                return ast.BoolOp(op=n.op, values=vals)
+        if isinstance(n, ast.IfExp) and isinstance(n.test, ast.Compare) and len(n.test.ops) == 1 and \
+           isinstance(n.test.left, ast.Constant) and isinstance(n.test.comparators[0], ast.Constant) and \
+           isinstance(n.test.ops[0], (ast.Is, ast.IsNot)):
+            same = n.test.left.value is n.test.comparators[0].value
+            take = same if isinstance(n.test.ops[0], ast.Is) else not same
+            return simplify(n.body if take else n.orelse)
+        # a list / generator of "each element": indexing, slicing and len go through to the iterable
+        ea = _each_of(n.value) if isinstance(n, ast.Subscript) else None
+        if ea is not None:
+            elt, it = ea
+            ks = sorted({x.id for x in ast.walk(elt) if isinstance(x, ast.Name) and x.id.startswith('_k')} -
+                        {x.id for x in ast.walk(it) if isinstance(x, ast.Name) and x.id.startswith('_k')})
+            if len(ks) == 1 and not isinstance(n.slice, (ast.Slice, ast.Tuple)):
+                # element i of [E(IT[k]) for k]: E(IT[i])
+                idx = n.slice
+                return simplify(copy_replace(elt, lambda x: idx if isinstance(x, ast.Name) and x.id == ks[0] else None))
+            if isinstance(n.slice, ast.Slice) and n.slice.step is None and len(ks) == 1 and \
+               (n.slice.lower is None or (isinstance(n.slice.lower, ast.Constant) and isinstance(n.slice.lower.value, int)
+                                          and n.slice.lower.value >= 0)):
+                lo_ = n.slice.lower.value if n.slice.lower is not None else 0
+                if lo_:
+                    # element k of the slice is element k + lo of the whole: the element expression shifts
+                    shift = ast.BinOp(left=ast.Name(id=ks[0], ctx=ast.Load()), op=ast.Add(), right=ast.Constant(value=lo_))
+                    elt = copy_replace(elt, lambda x: shift if isinstance(x, ast.Name) and x.id == ks[0] else None)
+                    each = ast.Call(func=ast.Name(id='_each', ctx=ast.Load()),
+                                    args=[simplify(elt), simplify(ast.Subscript(value=it, slice=n.slice, ctx=ast.Load()))],
+                                    keywords=[])
+                else:
+                    each = ast.Call(func=ast.Name(id='_each', ctx=ast.Load()),
+                                    args=[elt, simplify(ast.Subscript(value=it, slice=n.slice, ctx=ast.Load()))], keywords=[])
+                if isinstance(n.value, ast.List):
+                    return ast.List(elts=[ast.Starred(value=each, ctx=ast.Load())], ctx=ast.Load())
+                return each
+        if isinstance(n, ast.Call) and isinstance(n.func, ast.Name) and n.func.id == 'len' and len(n.args) == 1 and \
+           not n.keywords and _each_of(n.args[0]) is not None:
+            return simplify(ast.Call(func=n.func, args=[_each_of(n.args[0])[1]], keywords=[]))
+        if isinstance(n, ast.Call) and any(isinstance(a, ast.Starred) and isinstance(a.value, (ast.Tuple, ast.List))
+                                          and not any(isinstance(x, ast.Starred) for x in a.value.elts) for a in n.args):
+            # f(*(a, b)) is f(a, b)
+            args = []
+            for a in n.args:
+                if isinstance(a, ast.Starred) and isinstance(a.value, (ast.Tuple, ast.List)) and \
+                   not any(isinstance(x, ast.Starred) for x in a.value.elts):
+                    args += list(a.value.elts)
+                else:
+                    args.append(a)
+            return simplify(ast.Call(func=n.func, args=args, keywords=n.keywords))
+        if isinstance(n, ast.Subscript) and isinstance(n.value, ast.Subscript) and isinstance(n.value.slice, ast.Slice) \
+           and n.value.slice.step is None and n.value.slice.upper is None and isinstance(n.value.slice.lower, ast.Constant) \
+           and isinstance(n.value.slice.lower.value, int) and n.value.slice.lower.value >= 0:
+            lo = n.value.slice.lower.value
+            # X[a:][i] -> X[a + i] (i >= 0) ;  X[a:][-1] -> X[-1] ;  X[a:][b:] -> X[a + b:]
+            if isinstance(n.slice, ast.Constant) and isinstance(n.slice.value, int):
+                i = n.slice.value
+                return simplify(ast.Subscript(value=n.value.value, slice=ast.Constant(value=(lo + i) if i >= 0 else i),
+                                              ctx=ast.Load()))
+            if isinstance(n.slice, ast.Slice) and n.slice.step is None and n.slice.upper is None and \
+               isinstance(n.slice.lower, ast.Constant) and isinstance(n.slice.lower.value, int) and n.slice.lower.value >= 0:
+                return simplify(ast.Subscript(value=n.value.value, slice=ast.Slice(
+                    lower=ast.Constant(value=lo + n.slice.lower.value), upper=None, step=None), ctx=ast.Load()))
         if isinstance(n, ast.Subscript) and isinstance(n.value, ast.Subscript) and isinstance(n.value.slice, ast.Slice) \
            and not isinstance(n.slice, (ast.Slice, ast.Tuple)) and n.value.slice.step is None:
             sl = n.value.slice
@@ -723,7 +895,30 @@ def simplify(e):
                not any(isinstance(x, ast.Starred) for x in l.elts + r.elts):
                 return l.__class__(elts=list(l.elts) + list(r.elts), ctx=ast.Load())
         return None
-    return copy_replace(e, fn)
+    # bottom-up: children first, then the rules on the rebuilt node (a rule that fires returns an
+    # already simplified replacement)
+    def up(n):
+        if not isinstance(n, ast.AST):
+            return n
+        new = n.__class__()
+        for fld, val in ast.iter_fields(n):
+            if isinstance(val, list):
+                setattr(new, fld, [up(x) for x in val])
+            else:
+                setattr(new, fld, up(val))
+        for a in ('lineno', 'col_offset', 'end_lineno', 'end_col_offset', '_appended'):
+            if hasattr(n, a):
+                setattr(new, a, getattr(n, a))
+        r = fn(new)
+        return r if r is not None else new
+    global _SIMPLIFY_DEPTH
+    _SIMPLIFY_DEPTH += 1
+    try:
+        if _SIMPLIFY_DEPTH > 60:
+            return e
+        return up(e)
+    finally:
+        _SIMPLIFY_DEPTH -= 1
 
 
 def loop_transformer(ctx, func, loop, depth=2, **kw):
